@@ -58,8 +58,11 @@ Hash(a, b, c) == (a * 7919 + b * 3571 + c * 1223 + 101) % 65521
 Mix(x) == ((x % 4093) * 3301 + (x \div 4093) * 2749 + 977) % 65521
 RCell(cse, pos, m) == (Mix(Hash(Seed, cse, pos)) % (2 * m + 1)) - m
 MultiShapes == {<<5, 3, 2, 2>>, <<5, 3, 2, 3>>, <<4, 3, 2, 2>>, <<6, 4, 2, 3>>, <<6, 4, 3, 2>>}      \* objects, columns, inner rank, responses
-MultiCount == CASE ProdTier = "quick" -> 80 [] ProdTier = "thorough" -> 400 [] OTHER -> 0
-MultiCase(sh, c) == c + 1000 * (sh[1] * 7 + sh[2] * 3 + sh[3] + sh[4] * 11)
+\* Since the null-latent-variable guard of LVCalc is relative (afff38a) most residue iterations never start; what still reaches the pass ceiling
+\* (with an alternating convergence value) is about 0.5 % of the 4x3 / inner rank 2 / two-response inputs: that shape gets many more cases
+MultiCount(sh) == CASE ProdTier = "quick" -> (IF sh = <<4, 3, 2, 2>> THEN 6000 ELSE 80)
+                    [] ProdTier = "thorough" -> (IF sh = <<4, 3, 2, 2>> THEN 12000 ELSE 400) [] OTHER -> 0
+MultiCase(sh, c) == c * 16 + ((sh[1] + 3 * sh[2] + 5 * sh[3] + 7 * sh[4]) % 16)        \* the five shapes land on 6, 13, 5, 1, 15
 RECURSIVE MultiCell(_, _, _, _)
 MultiCell(cse, i, j, k) == IF k = 0 THEN 0 ELSE RCell(cse, 100 + 10 * i + k, 1) * RCell(cse, 200 + 10 * k + j, 1) + MultiCell(cse, i, j, k - 1)
 MultiX(sh, cse) == [i \in 1..sh[1] |-> [j \in 1..sh[2] |-> MultiCell(cse, i, j, sh[3])]]
@@ -80,7 +83,7 @@ InitProd == \E sh \in ProdShapes : \E r \in 0..Min2(3, Min2(sh[1], sh[2])) : \E 
           /\ M = ProdMat(sh[1], sh[2], r, s, rep)
           /\ \/ kind = "prod" /\ y = <<>>
              \/ kind = "prodresp" /\ sh[1] \in 2..ProdRespRows /\ y = ProdY(sh[1], s + r)
-InitMulti == \E sh \in MultiShapes : \E c \in 0..(MultiCount - 1) :
+InitMulti == \E sh \in MultiShapes : \E c \in 0..(MultiCount(sh) - 1) :
           kind = "multi" /\ ex = 0 /\ M = MultiX(sh, MultiCase(sh, c)) /\ y = MultiY(sh, MultiCase(sh, c))       \* y is a MATRIX here (rows of the response block)
 Init == InitSmall \/ InitProd \/ InitMulti
 Next == UNCHANGED vars
